@@ -11,4 +11,5 @@ void registerAll()
     reg_slot();
     reg_fs();
     reg_proxy();
+    reg_life();
 }
